@@ -67,8 +67,8 @@ End Algorithm.
 
 (** *** Names as byte strings *)
 Definition DOT : N := 46.
-Definition label := bytes.
-Definition rule := @grule label.
+Notation label := bytes (only parsing).
+Notation rule := (@grule bytes) (only parsing).
 
 (** labels of a name, left to right; never the empty list ("" has the one label "") *)
 Fixpoint split_dot (s : bytes) : list label :=
